@@ -77,8 +77,15 @@ def main():
               "self_in": "none", "saw_none": r is None, "exc": [], "leaves": 1})
     tu.find_irrelevant_type = outermost(tu.find_irrelevant_type, fi_ret)
 
-    def tps_of(params):
-        return [{"n": p.name, "v": VAR[p.variance.value], "b": [ser(p.bound)] if p.bound is not None else []} for p in params]
+    def tsub(t, m):
+        """structural substitution on terms (the caller's assignment of *outer* type variables applied to the bounds)"""
+        if t["k"] == "V" and t["n"] in m:
+            return m[t["n"]]
+        return {"k": t["k"], "n": t["n"], "a": [tsub(x, m) for x in t["a"]]}
+
+    def tps_of(params, outer=None):
+        outer = outer or {}
+        return [{"n": p.name, "v": VAR[p.variance.value], "b": [tsub(ser(p.bound), outer)] if p.bound is not None else []} for p in params]
 
     def inst_ret(r, a, k):
         tc = a[0]
@@ -88,7 +95,8 @@ def main():
             return      # PECS / disabled variance rewrite the caller's choices inside the helper
         names = {p.name for p in tc.type_parameters}
         pt, m = r
-        emit({"kind": "instantiate", "tps": tps_of(tc.type_parameters), "pre": {p.name: ser(t) for p, t in pre.items() if p.name in names},
+        outer = {p.name: ser(t) for p, t in pre.items() if p.name not in names}
+        emit({"kind": "instantiate", "tps": tps_of(tc.type_parameters, outer), "pre": {p.name: ser(t) for p, t in pre.items() if p.name in names},
               "choices": {"on": vc is not None, "m": {p.name: [bool(v[0]), bool(v[1])] for p, v in (vc or {}).items() if p.name in names}},
               "sw": {"disUse": bool(cfg.dis.use_site_variance), "disContra": bool(cfg.dis.use_site_contravariance)}, "fn": False,
               "outs": [{"args": [ser(x) for x in pt.type_args], "map": {p.name: ser(t) for p, t in m.items() if p.name in names}}],
@@ -99,7 +107,8 @@ def main():
         params = a[0]
         pre = arg(a, k, 3, "type_var_map") or {}
         names = {p.name for p in params}
-        emit({"kind": "instantiate", "tps": tps_of(params), "pre": {p.name: ser(t) for p, t in pre.items() if p.name in names},
+        outer = {p.name: ser(t) for p, t in pre.items() if p.name not in names}
+        emit({"kind": "instantiate", "tps": tps_of(params, outer), "pre": {p.name: ser(t) for p, t in pre.items() if p.name in names},
               "choices": {"on": False, "m": {}}, "sw": {"disUse": bool(cfg.dis.use_site_variance), "disContra": bool(cfg.dis.use_site_contravariance)},
               "fn": True, "outs": [{"args": [ser(r[p]) for p in params], "map": {p.name: ser(t) for p, t in r.items() if p.name in names}}],
               "res": [], "exc": [], "leaves": 1, "argdesc": "function"})
